@@ -27,7 +27,7 @@ FromNativePairs(pairs, i, acc) ==
        IN  IF ~r.ok THEN r
            \* DictSchema.__call__ on the dict comprehension: `...` / optional keys get their
            \* declaration-time meaning; plain keys are required
-           ELSE IF IsEll(pairs[i].key) THEN SErr("DeclarationError")
+           ELSE IF IsEll(pairs[i].key) THEN SErr(IF DEV_EllipsisKeyCarriesValue THEN "DeclarationError" ELSE "ValueError")
            ELSE FromNativePairs(pairs, i + 1,
                                 KeysPut(acc, IF pairs[i].key.k = "optional"
                                              THEN DKey(pairs[i].key.key, r.s, TRUE)
@@ -158,6 +158,8 @@ SubNativePairs(pairs, i, acc) ==
   IF i > Len(pairs) THEN SOk(acc)
   ELSE IF IsEll(pairs[i].val) /\ ~IsEll(pairs[i].key) /\ ~DEV_PlaceholderUnderUndeclaredKey
        THEN SErr("SubstitutionError")        \* nothing is declared for the placeholder to stand for
+  ELSE IF IsEll(pairs[i].key) /\ ~IsEll(pairs[i].val) /\ ~DEV_EllipsisKeyCarriesValue
+       THEN SErr("SubstitutionError")        \* `...` stands for "other keys": it cannot carry a value
   ELSE IF IsEll(pairs[i].val) THEN SubNativePairs(pairs, i + 1, KeysPut(acc, DKey(pairs[i].key, VEllipsis, FALSE)))
   ELSE LET r == SubFromNative(pairs[i].val)
        IN  IF r.ok THEN SubNativePairs(pairs, i + 1, KeysPut(acc, DKey(pairs[i].key, r.s, FALSE))) ELSE r
